@@ -56,6 +56,7 @@ type GDef struct {
 
 type Prog struct {
 	Defs []*GDef
+	Pre  []*T // body of a `find all` command that precedes the main command (nil = none)
 	Body []*T
 }
 
@@ -207,6 +208,9 @@ func (p *Prog) Source(head string) string {
 			b.WriteString(" begin " + d.Pred + " end")
 		}
 		b.WriteString("\n")
+	}
+	if p.Pre != nil {
+		b.WriteString("find all " + renderSeq(p.Pre) + "\n")
 	}
 	b.WriteString(head + " " + renderSeq(p.Body))
 	return b.String()
